@@ -19,6 +19,9 @@ VLcgReg(r) == IF r.raised # "none" THEN "Total" ELSE IF ~r.obs.matches THEN "Tru
 Verdict(r) ==
   CASE r.ev = "range" -> VRange(r)
     [] r.ev = "pure" -> VPure(r)
+    \* a sequence of calls with ONE seed on one generator object: every result equals that of a fresh process making the call alone
+    [] r.ev = "hist" -> (IF r.raised # "none" THEN "Total"
+                         ELSE IF \E i \in 1..Len(r.obs.equal_fresh) : ~r.obs.equal_fresh[i] THEN "IndependentOfEarlierCalls" ELSE "ok")
     [] r.ev \in {"java", "jdk"} -> VJava(r)
     [] r.ev = "lcgsmall" -> VLcgSmall(r)
     [] r.ev = "lcgreg" -> VLcgReg(r)
